@@ -140,7 +140,10 @@ def eval_case(case):
     for cls in ('S', 's'):
         v = wrap(t, cls)
         try:
-            r, _ = run_bounded(lambda: actual(m, v, a, nk), LIMIT + 2000 * len(t))
+            if case.get('large'):
+                r = actual(m, v, a, nk)   # sizes in the thousands: not traced (the line-event bound is C09's business)
+            else:
+                r, _ = run_bounded(lambda: actual(m, v, a, nk), LIMIT + 2000 * len(t))
             got = ('ok', texts_of(r))
             if m in ('split', 'rsplit', 'splitlines') and isinstance(r, list):
                 got = ('ok', list(got[1]))
@@ -243,6 +246,26 @@ def strat(draw):
     return {'t': t, 'm': m, 'a': a, 'nk': nk}
 
 
+def enum_large(tier):
+    """sizes in the thousands: more matches / pieces / padding than any recursion limit, small-int cache or chunk size"""
+    n = 1100 if tier == 'quick' else 2600
+    yield {'t': 'a,' * n, 'm': 'replace', 'a': [',', ';', -1], 'nk': 'str', 'large': True}
+    yield {'t': 'a,' * n, 'm': 'replace', 'a': [',', '', n - 3], 'nk': 'str', 'large': True}
+    yield {'t': 'ab' * n, 'm': 'replace', 'a': ['b', 'xy', -1], 'nk': 'S', 'large': True}
+    yield {'t': 'x\t' * n, 'm': 'expandtabs', 'a': [1], 'large': True}
+    yield {'t': 'x\t' * n, 'm': 'expandtabs', 'a': [0], 'large': True}
+    yield {'t': 'a b ' * n, 'm': 'split', 'a': [None, -1], 'large': True}
+    yield {'t': 'a,b' * n, 'm': 'rsplit', 'a': [',', n // 2], 'large': True}
+    yield {'t': 'line\n' * n, 'm': 'splitlines', 'a': [True], 'large': True}
+    yield {'t': 'ab' * 200, 'm': 'center', 'a': [5000, '*'], 'large': True}
+    yield {'t': 'ab' * 200, 'm': 'rjust', 'a': [3001, '0'], 'large': True}
+    yield {'t': ' ' * n + 'core' + '\t' * n, 'm': 'strip', 'a': [None], 'large': True}
+    yield {'t': 'é' * n, 'm': 'upper', 'a': [], 'large': True}
+    yield {'t': 'ab' * n, 'm': 'count', 'a': ['ab', 300, -300], 'large': True}
+    yield {'t': 'ab' * n, 'm': 'rfind', 'a': ['ba', 257, 2 * n - 257], 'large': True}
+    yield {'t': 'ab' * n, 'm': 'partition', 'a': ['ba' * 300], 'large': True}
+
+
 def self_test():
     assert expected('center', 'ab', [5, '*']) == '*ab**'
     assert expected('rpartition', 'abc', ['x']) == ('abc', '', '')
@@ -252,5 +275,6 @@ def self_test():
 
 
 SUBS = [
+    Sub('large_inputs', eval_case, enumerate=enum_large, exhaustive_note='fixed list of calls with sizes in the thousands (more than 1000 matches / pieces, widths of thousands)'),
     Sub('methods', eval_case, strategy=strat, quick=2500, thorough=30000),
 ]
